@@ -1,6 +1,7 @@
 package main
 
 import (
+	"regexp"
 	"flag"
 	"fmt"
 	"os"
@@ -96,6 +97,7 @@ func cmdDump(args []string) int {
 	run := fs.Bool("run", true, "run solvers")
 	to := fs.Int("timeout", 20, "seconds per obligation")
 	covers := fs.Bool("covers", false, "also check reachability of every return")
+	only := fs.String("only", "", "regexp: run only the obligations whose name matches")
 	fs.Parse(args)
 	coverReturns = *covers
 	P, err := loadAll(*repo)
@@ -127,6 +129,17 @@ func cmdDump(args []string) int {
 		defer os.RemoveAll(dir)
 	} else {
 		os.MkdirAll(dir, 0o755)
+	}
+	if *only != "" {
+		re := regexp.MustCompile(*only)
+		var keep []*Obligation
+		for _, o := range res.Obls {
+			if re.MatchString(o.Name) {
+				o.group = nil
+				keep = append(keep, o)
+			}
+		}
+		res.Obls = keep
 	}
 	if *run {
 		dischargeAll(res.Obls, dir, time.Duration(*to)*time.Second, "quick", 5)
